@@ -1938,6 +1938,11 @@ type limitWriter struct {
 }
 
 func (l *limitWriter) Write(data []byte) (n int, err error) {
+	if l.rw.endWritten {
+		// The response is over and the buffer may already be back in the pool
+		// (and in use by another RPC), so it must not be written to anymore.
+		return 0, errFinalDataAlreadyWritten
+	}
 	length := l.buf.Len() + len(data)
 	if length > int(l.limit) {
 		err := bufferLimitError(int64(l.limit))
